@@ -159,9 +159,15 @@ template <class G> struct C10 {
   void writes(int placement, const G& Xo, const G& Yo, const T& to, const T& so) {
     struct W { const char* name; std::function<void(MG&, G&)> f; };
     std::vector<W> ws;
+    Guarded<S> srcY(G::RepSize, (placement + 2) % 4), srcS(T::DoF, (placement + 1) % 4);
     ws.push_back(W{"assign_from_owning", [&](MG& m, G& o) { m = Yo; o = Yo; }});
     ws.push_back(W{"assign_from_MapConst", [&](MG& m, G& o) { CG c(Yo.data()); m = c; o = Yo; }});
     ws.push_back(W{"assign_from_Map", [&](MG& m, G& o) { G tmp = Yo; MG c(tmp.data()); m = c; o = Yo; }});
+    // sources that are themselves views over guarded user buffers (lvalue, rvalue temporary, std::move): the source must only be read
+    ws.push_back(W{"assign_from_guarded_Map_lvalue", [&](MG& m, G& o) { MG c(srcY.p); m = c; o = Yo; }});
+    ws.push_back(W{"assign_from_guarded_Map_temporary", [&](MG& m, G& o) { m = MG(srcY.p); o = Yo; }});
+    ws.push_back(W{"move_assign_from_guarded_Map", [&](MG& m, G& o) { MG c(srcY.p); m = std::move(c); o = Yo; }});
+    ws.push_back(W{"assign_from_guarded_MapConst", [&](MG& m, G& o) { const CG c(srcY.p); m = c; o = Yo; }});
     ws.push_back(W{"assign_from_eigen_vector", [&](MG& m, G& o) { typename G::DataType v = Yo.coeffs(); m = v; o = v; }});
     ws.push_back(W{"move_assign_from_owning", [&](MG& m, G& o) { G tmp = Yo; m = std::move(tmp); o = Yo; }});
     ws.push_back(W{"assign_from_rvalue_result", [&](MG& m, G& o) { m = Xo * Yo; o = Xo * Yo; }});
@@ -178,6 +184,7 @@ template <class G> struct C10 {
     for (size_t w = 0; w < ws.size(); ++w) {
       std::string k = std::string("write:") + ws[w].name;
       if (!R.want(k + "/" + cur)) continue;
+      for (int i = 0; i < G::RepSize; ++i) srcY.p[i] = Yo.coeffs()(i);
       Guarded<S> buf(G::RepSize, placement);
       for (int i = 0; i < G::RepSize; ++i) buf.p[i] = Xo.coeffs()(i);
       G own = Xo;
@@ -191,6 +198,8 @@ template <class G> struct C10 {
       expect(buf.canaries_intact(), "write_changes_exactly_the_viewed_scalars", k.c_str());
       Eigen::Map<const typename G::DataType> now(buf.p);
       expect(vf::bits_equal(now, own.coeffs()), "view_write_equals_owning_result", k.c_str());
+      Eigen::Map<const typename G::DataType> src_now(srcY.p);
+      expect(vf::bits_equal(src_now, Yo.coeffs()) && srcY.canaries_intact(), "source_view_buffer_only_read", k.c_str());
       ++R.states;
     }
     // tangent views
@@ -200,6 +209,10 @@ template <class G> struct C10 {
     wt.push_back(WT{"t_assign_from_MapConst", [&](MT& m, T& o) { CT c(so.data()); m = c; o = so; }});
     wt.push_back(WT{"t_assign_from_eigen_vector", [&](MT& m, T& o) { typename T::DataType v = so.coeffs(); m = v; o = v; }});
     wt.push_back(WT{"t_move_assign", [&](MT& m, T& o) { T tmp = so; m = std::move(tmp); o = so; }});
+    wt.push_back(WT{"t_assign_from_guarded_Map_lvalue", [&](MT& m, T& o) { MT c(srcS.p); m = c; o = so; }});
+    wt.push_back(WT{"t_assign_from_guarded_Map_temporary", [&](MT& m, T& o) { m = MT(srcS.p); o = so; }});
+    wt.push_back(WT{"t_move_assign_from_guarded_Map", [&](MT& m, T& o) { MT c(srcS.p); m = std::move(c); o = so; }});
+    wt.push_back(WT{"t_assign_from_guarded_MapConst", [&](MT& m, T& o) { const CT c(srcS.p); m = c; o = so; }});
     wt.push_back(WT{"t_setZero", [&](MT& m, T& o) { m.setZero(); o.setZero(); }});
     wt.push_back(WT{"t_setRandom(seed 9)", [&](MT& m, T& o) { srand(9); m.setRandom(); srand(9); o.setRandom(); }});
     wt.push_back(WT{"t+=s", [&](MT& m, T& o) { m += so; o += so; }});
@@ -213,6 +226,7 @@ template <class G> struct C10 {
     for (size_t w = 0; w < wt.size(); ++w) {
       std::string k = std::string("write:") + wt[w].name;
       if (!R.want(k + "/" + cur)) continue;
+      for (int i = 0; i < T::DoF; ++i) srcS.p[i] = so.coeffs()(i);
       Guarded<S> buf(T::DoF, placement);
       for (int i = 0; i < T::DoF; ++i) buf.p[i] = to.coeffs()(i);
       T own = to;
@@ -226,6 +240,8 @@ template <class G> struct C10 {
       expect(buf.canaries_intact(), "write_changes_exactly_the_viewed_scalars", k.c_str());
       Eigen::Map<const typename T::DataType> now(buf.p);
       expect(vf::bits_equal(now, own.coeffs()), "view_write_equals_owning_result", k.c_str());
+      Eigen::Map<const typename T::DataType> src_now(srcS.p);
+      expect(vf::bits_equal(src_now, so.coeffs()) && srcS.canaries_intact(), "source_view_buffer_only_read", k.c_str());
       ++R.states;
     }
   }
